@@ -129,6 +129,19 @@ def merge_results(results):
 
 def decide(prop, mod, results, tier, seed, wall):
     results = merge_results(results)
+    # a split task whose merged result has failed/undecided obligations gets its bounded enumeration here
+    # (the sub-task carrying it may not have been the one that failed)
+    for r in results:
+        if r.get("group") and not r.get("enumeration") and (
+                r["status"] != "ok" or any(o["status"] in ("failed", "undecided") for o in r["obligations"])):
+            for t in mod.tasks():
+                if t.group == r["group"] and t.enumerate is not None:
+                    try:
+                        r["enumeration"] = t.enumerate(seed)
+                    except Exception:
+                        r["enumeration"] = {"name": r["group"] + ".bounded_enumeration", "bound": "crashed", "cases": 0,
+                                            "failures": [], "error": traceback.format_exc(limit=6)}
+                    break
     known = load_known()
     open_ids = {f["id"]: f for f in known.get("findings", []) if f.get("property") == prop}
     lines, exit_code = [], 0
@@ -242,6 +255,7 @@ def decide(prop, mod, results, tier, seed, wall):
                     json.dump({"property": prop, "obligation": o["name"], "kind": o.get("kind"), "task": r["task"],
                                "functions": srcs, "model": fail.get("model"), "violated_condition": fail.get("violated"),
                                "path_decisions": fail.get("decisions"), "solver": fail.get("backend"),
+                               "last_exception_on_path": fail.get("last_exception"),
                                "replay_on_real_code": rep, "bounded": row.get("bounded")}, fh, indent=1, default=str)
                 suffix = "" if rep["confirmed"] else " no-failing-input-found"
                 lines.append(f"VIOLATION property={prop} replay={path}{suffix}")
